@@ -59,6 +59,8 @@ pub struct TrainRun {
     // trip-level getters (speed-limited only)
     pub getters: HashMap<String, f64>,
     pub fric_force_max: f64,
+    /// friction-brake force per saved step (speed-limited runs), and at the end of the run
+    pub fric_force: Vec<f64>,
     pub final_state: Option<TrainState>,
     /// where the final stopping curve (braking points whose target is 0) begins, read from
     /// the sim's own braking points at the end of the run
@@ -86,6 +88,7 @@ impl TrainRun {
             build_err: String::new(),
             getters: HashMap::new(),
             fric_force_max: 0.0,
+            fric_force: vec![],
             final_state: None,
             stop_curve_start: None,
         }
@@ -183,6 +186,8 @@ pub fn run_case(case: &TrainCase) -> TrainRun {
             }
         }
         run.states = sim.history.state_vec();
+        run.fric_force = sim.fric_brake.history.force.iter().map(|f| f.value).collect();
+        run.fric_force.push(sim.fric_brake.state.force.value);
         run.final_state = Some(sim.state);
         run.stop_curve_start = stop_curve_start(&sim);
         if std::env::var("VERIF_DUMP").is_ok() {
